@@ -1,4 +1,7 @@
 (* C01 driver.  Requests (one per line):
+     W <p>                                              model of WrapPosition
+     C P=<id:val,...> [H=<size hint at hasher setup>]   model of the configuration: cfg=q,lgwin,lgblock,np,nd,alphabet,maxdist,rbsize,rbmask,rbtail,rbtotal hasher=<type> hq=<0|1>
+     B <lgwin> <lgblock> <q> <n1,n2,..> <data hex>      model of the ring buffer after these writes: pos mask cur chk (+ own check against the data)
      D <allow_large 0|1> <stream hex|->                 decode with the extracted RFC 7932 decoder
      DP <allow_large> <prefix hex|-> <stream hex|->     same with a custom-dictionary prefix
    answers:  OK <len> <hash> I=<k:v,...> [H=<hex of output if len <= 64>]   |   ERR <code>
@@ -47,9 +50,58 @@ let run lw prefix stream =
     Printf.sprintf "OK %d %d I=%s%s" len (hash_bytes bytes) (info_string i)
       (if len <= 64 then " H=" ^ (if len = 0 then "-" else ints_to_hex (Stdlib.List.map int_of_n bytes)) else "")
   | Err e -> Printf.sprintf "ERR %d" (int_of_n e)
+let parse_params (t : string) : (n * n) list =
+  Stdlib.List.filter_map (fun kv ->
+    match Stdlib.String.split_on_char ':' kv with
+    | [k; v] -> let v = int_of_string v in
+                let v = if v < 0 then v + (1 lsl 32) else v in
+                Some (n_of_int (int_of_string k), n_of_int v)
+    | _ -> None) (Stdlib.String.split_on_char ',' t)
+let cfg_of plist hint =
+  let p = set_params plist in
+  let p = match hint with None -> p | Some h -> { p with e_size_hint = n_of_int h } in
+  let c = configure p in
+  (c, Printf.sprintf "cfg=%d,%d,%d,%d,%d,%d,%d,%d,%d,%d,%d hasher=%d hq=%d"
+    (int_of_z c.c_quality) (int_of_z c.c_lgwin) (int_of_z c.c_lgblock) (int_of_n c.c_np) (int_of_n c.c_nd)
+    (int_of_n c.c_alphabet) (int_of_n c.c_maxdist) (int_of_n c.c_rbsize) (int_of_n c.c_rbmask) (int_of_n c.c_rbtail)
+    (int_of_n c.c_rbtotal) (int_of_z c.c_hasher) (if hq_ok c.c_alphabet then 1 else 0))
+let run_b lgwin lgblock q sizes data =
+  let plist = (if lgwin > 24 then [(n_of_int 6, n_of_int 1)] else []) @
+              [(n_of_int 2, n_of_int lgwin); (n_of_int 3, n_of_int lgblock); (n_of_int 1, n_of_int q)] in
+  let (c, _) = cfg_of plist None in
+  let bytes = Array.of_list (bytes_of_string (unhex data)) in
+  let cur = ref 0 in
+  let ws = Stdlib.List.map (fun n -> let w = Array.to_list (Array.sub bytes !cur n) in cur := !cur + n; w) sizes in
+  match rb_writes ws (rb_setup (Z.to_N c.c_rbbits) (Z.to_N c.c_lgblock)) with
+  | RbPanic w -> Printf.sprintf "rb=PANIC(%d)" (int_of_n w)
+  | RbDone r ->
+    let total = !cur in
+    let size = int_of_n r.r_size in
+    let span = min total size in
+    let h = ref 0 and ok = ref true in
+    if int_of_n r.r_len > 0 then
+      for p = total - span to total - 1 do
+        let b = int_of_n (rb_at r (n_of_int p)) in
+        h := hmix !h b;
+        if b <> int_of_n bytes.(p) then ok := false
+      done;
+    Printf.sprintf "rb=%s pos=%d mask=%d cur=%d size=%d tail=%d chk=%d" (if !ok then "ok" else "bad") (int_of_n r.r_pos)
+      (int_of_n r.r_mask) (int_of_n r.r_cur) size (int_of_n r.r_tail) !h
+let strip_prefix p s = let lp = Stdlib.String.length p in
+  if Stdlib.String.length s >= lp && Stdlib.String.sub s 0 lp = p then Some (Stdlib.String.sub s lp (Stdlib.String.length s - lp)) else None
 let () = iter_lines (fun line ->
   match split_ws line with
   | ["D"; lw; s] -> print_endline (run lw "-" s)
   | ["DP"; lw; p; s] -> print_endline (run lw p s)
+  | ["W"; p] -> print_endline (string_of_n (wrap_position (n_of_string p)))
+  | "C" :: rest ->
+    let ps = ref [] and hint = ref None in
+    Stdlib.List.iter (fun t ->
+      (match strip_prefix "P=" t with Some x -> ps := parse_params x | None -> ());
+      (match strip_prefix "H=" t with Some x -> hint := Some (int_of_string x) | None -> ())) rest;
+    print_endline (snd (cfg_of !ps !hint))
+  | ["B"; lgwin; lgblock; q; sizes; data] ->
+    print_endline (run_b (int_of_string lgwin) (int_of_string lgblock) (int_of_string q)
+      (Stdlib.List.map int_of_string (Stdlib.List.filter (fun x -> x <> "") (Stdlib.String.split_on_char ',' sizes))) data)
   | [] -> ()
   | _ -> print_endline "BADREQ")
